@@ -1,128 +1,160 @@
 -------------------------------- MODULE Manager --------------------------------
 (***************************************************************************)
-(* Implementation-shaped model of manager.Manager for one target (C13):    *)
-(* retryMonitor / monitor / subscribe / handleUpdates as a program counter *)
-(* with the callbacks it makes, Remove (cancel, wait for finished) and     *)
-(* Reconnect (cancel the session context) from other goroutines, and the   *)
-(* receive-timeout goroutine.                                              *)
-(*   pc: "backoff" "dial" "open" "recv" "ended"(monitor returned err, the  *)
-(*       ConnectError/MonitorError callbacks are due) "finished"           *)
+(* Implementation-shaped model of manager.Manager for one target name      *)
+(* (C13): retryMonitor / monitor / subscribe / handleUpdates as a program  *)
+(* counter with the callbacks it makes, Remove (cancel, wait for finished, *)
+(* forget the target - all under the manager lock) and Reconnect (cancel   *)
+(* the session context) from other goroutines, the receive-timeout         *)
+(* goroutine, and Add of the same name again after (or, for the mutant,    *)
+(* during) a Remove: every successful Add starts a new INCARNATION with    *)
+(* its own monitor goroutine.                                              *)
+(*   pc[i]: "backoff" "dial" "open" "recv" "first" "ended" (monitor        *)
+(*          returned err, the ConnectError/MonitorError callbacks are due) *)
+(*          "finished"; "none" before incarnation i exists                 *)
 (* Mutant: "none", "connect_on_open" (Connect before the first message),   *)
 (*         "no_reset_on_eof", "remove_no_wait" (Remove does not wait for   *)
-(*         the monitor goroutine).                                         *)
+(*         the monitor goroutine), "remove_unlocks_early" (Remove forgets  *)
+(*         the target and releases the lock before waiting: an Add of the  *)
+(*         same name gets in while the old session winds down).            *)
 (***************************************************************************)
 EXTENDS Naturals, Sequences, TLC, ManagerDisc
 
-CONSTANTS MaxSessions, MaxMsgs, Mutant
+CONSTANTS MaxSessions, MaxMsgs, MaxInc, Mutant
 
-VARIABLES managed, pc, connected, due, sess, msgs, nextId, cancelled, sessCancelled,
-          removing, removed, disc, cbAfterRemove
+Inc == 1..MaxInc
 
-vars == <<managed, pc, connected, due, sess, msgs, nextId, cancelled, sessCancelled, removing, removed, disc, cbAfterRemove>>
+VARIABLES table,      \* the incarnation in the manager's table (0 = the name is not managed)
+          ninc,       \* incarnations created so far
+          pc, connected, due, sess, msgs, cancelled, sessCancelled,   \* per incarnation
+          nextId,
+          removing,   \* the incarnation a Remove call is waiting for (0 = no Remove in progress)
+          removedSet, \* incarnations whose Remove has returned
+          disc, cbAfterRemove
+
+vars == <<table, ninc, pc, connected, due, sess, msgs, cancelled, sessCancelled, nextId, removing, removedSet, disc, cbAfterRemove>>
 
 Init ==
-    /\ managed = FALSE /\ pc = "none" /\ connected = FALSE /\ due = <<>> /\ sess = 0 /\ msgs = 0 /\ nextId = 1
-    /\ cancelled = FALSE /\ sessCancelled = FALSE /\ removing = FALSE /\ removed = FALSE
+    /\ table = 0 /\ ninc = 0
+    /\ pc = [i \in Inc |-> "none"] /\ connected = [i \in Inc |-> FALSE] /\ due = [i \in Inc |-> <<>>]
+    /\ sess = [i \in Inc |-> 0] /\ msgs = [i \in Inc |-> 0]
+    /\ cancelled = [i \in Inc |-> FALSE] /\ sessCancelled = [i \in Inc |-> FALSE]
+    /\ nextId = 1 /\ removing = 0 /\ removedSet = {}
     /\ disc = D0 /\ cbAfterRemove = FALSE
 
-CB(k, id) ==
+(* a callback made by incarnation i *)
+CB(i, k, id) ==
     /\ disc' = DStep(disc, k, id)
-    /\ cbAfterRemove' = (cbAfterRemove \/ removed)
+    /\ cbAfterRemove' = (cbAfterRemove \/ i \in removedSet)
 
 NoCB == UNCHANGED <<disc, cbAfterRemove>>
+Ctl == <<table, ninc, removing, removedSet>>
 
+(* Add takes the manager lock: it cannot run while a Remove holds it (the    *)
+(* unmutated Remove holds it until the old monitor has finished)             *)
 Add ==
-    /\ ~managed /\ ~removed
-    /\ managed' = TRUE /\ pc' = "backoff"
-    /\ UNCHANGED <<connected, due, sess, msgs, nextId, cancelled, sessCancelled, removing, removed>> /\ NoCB
+    /\ table = 0 /\ ninc < MaxInc
+    /\ (removing = 0 \/ Mutant = "remove_unlocks_early")
+    /\ ninc' = ninc + 1 /\ table' = ninc + 1
+    /\ pc' = [pc EXCEPT ![ninc + 1] = "backoff"]
+    /\ disc' = IF removing = 0 THEN D0 ELSE disc     \* a new life of the name: the discipline starts afresh once the old one is over
+    /\ UNCHANGED <<connected, due, sess, msgs, cancelled, sessCancelled, nextId, removing, removedSet, cbAfterRemove>>
 
 (* timer fires: next attempt (a cancelled session context is renewed)       *)
-BackoffElapsed ==
-    /\ pc = "backoff" /\ ~cancelled /\ sess < MaxSessions
-    /\ pc' = "dial" /\ sess' = sess + 1 /\ sessCancelled' = FALSE /\ connected' = FALSE /\ msgs' = 0
-    /\ UNCHANGED <<managed, due, nextId, cancelled, removing, removed>> /\ NoCB
+BackoffElapsed(i) ==
+    /\ pc[i] = "backoff" /\ ~cancelled[i] /\ sess[i] < MaxSessions
+    /\ pc' = [pc EXCEPT ![i] = "dial"] /\ sess' = [sess EXCEPT ![i] = @ + 1]
+    /\ sessCancelled' = [sessCancelled EXCEPT ![i] = FALSE] /\ connected' = [connected EXCEPT ![i] = FALSE]
+    /\ msgs' = [msgs EXCEPT ![i] = 0]
+    /\ UNCHANGED <<due, nextId, cancelled>> /\ UNCHANGED Ctl /\ NoCB
 
-(* the whole Manager context is cancelled: retryMonitor returns             *)
-MonitorExit ==
-    /\ pc = "backoff" /\ cancelled
-    /\ pc' = "finished"
-    /\ UNCHANGED <<managed, connected, due, sess, msgs, nextId, cancelled, sessCancelled, removing, removed>> /\ NoCB
+(* the incarnation's context is cancelled: retryMonitor returns             *)
+MonitorExit(i) ==
+    /\ pc[i] = "backoff" /\ cancelled[i]
+    /\ pc' = [pc EXCEPT ![i] = "finished"]
+    /\ UNCHANGED <<connected, due, sess, msgs, nextId, cancelled, sessCancelled>> /\ UNCHANGED Ctl /\ NoCB
 
-Fail(callbacks) == pc' = "ended" /\ due' = callbacks
+Fail(i, callbacks) == pc' = [pc EXCEPT ![i] = "ended"] /\ due' = [due EXCEPT ![i] = callbacks]
 
-DialFail ==
-    /\ pc = "dial" /\ Fail(<<"connecterr", "monitorerr">>)
-    /\ UNCHANGED <<managed, connected, sess, msgs, nextId, cancelled, sessCancelled, removing, removed>> /\ NoCB
-DialOk ==
-    /\ pc = "dial" /\ ~sessCancelled /\ ~cancelled /\ pc' = "open"
-    /\ UNCHANGED <<managed, connected, due, sess, msgs, nextId, cancelled, sessCancelled, removing, removed>> /\ NoCB
+DialFail(i) ==
+    /\ pc[i] = "dial" /\ Fail(i, <<"connecterr", "monitorerr">>)
+    /\ UNCHANGED <<connected, sess, msgs, nextId, cancelled, sessCancelled>> /\ UNCHANGED Ctl /\ NoCB
+DialOk(i) ==
+    /\ pc[i] = "dial" /\ ~sessCancelled[i] /\ ~cancelled[i] /\ pc' = [pc EXCEPT ![i] = "open"]
+    /\ UNCHANGED <<connected, due, sess, msgs, nextId, cancelled, sessCancelled>> /\ UNCHANGED Ctl /\ NoCB
 
-OpenFail ==
-    /\ pc = "open" /\ Fail(<<"connecterr", "monitorerr">>)
-    /\ UNCHANGED <<managed, connected, sess, msgs, nextId, cancelled, sessCancelled, removing, removed>> /\ NoCB
-OpenOk ==
-    /\ pc = "open" /\ pc' = "recv"
-    /\ IF Mutant = "connect_on_open" THEN CB("connect", 0) /\ connected' = TRUE ELSE NoCB /\ UNCHANGED connected
-    /\ UNCHANGED <<managed, due, sess, msgs, nextId, cancelled, sessCancelled, removing, removed>>
+OpenFail(i) ==
+    /\ pc[i] = "open" /\ Fail(i, <<"connecterr", "monitorerr">>)
+    /\ UNCHANGED <<connected, sess, msgs, nextId, cancelled, sessCancelled>> /\ UNCHANGED Ctl /\ NoCB
+OpenOk(i) ==
+    /\ pc[i] = "open" /\ pc' = [pc EXCEPT ![i] = "recv"]
+    /\ IF Mutant = "connect_on_open" THEN CB(i, "connect", 0) /\ connected' = [connected EXCEPT ![i] = TRUE] ELSE NoCB /\ UNCHANGED connected
+    /\ UNCHANGED <<due, sess, msgs, nextId, cancelled, sessCancelled>> /\ UNCHANGED Ctl
 
 (* one received message: Connect (first message only), then its callback -  *)
 (* two callbacks of one step of the receive loop, taken as two actions      *)
-RecvMsg ==
-    /\ pc = "recv" /\ msgs < MaxMsgs /\ ~sessCancelled /\ ~cancelled
-    /\ IF ~connected
-       THEN CB("connect", 0) /\ connected' = TRUE /\ pc' = "first" /\ UNCHANGED <<msgs, nextId>>
-       ELSE /\ \E k \in {"update", "sync"} : CB(k, nextId)
-            /\ msgs' = msgs + 1 /\ nextId' = nextId + 1 /\ UNCHANGED <<connected, pc>>
-    /\ UNCHANGED <<managed, due, sess, cancelled, sessCancelled, removing, removed>>
-FirstMsg ==
-    /\ pc = "first"
-    /\ \E k \in {"update", "sync"} : CB(k, nextId)
-    /\ pc' = "recv" /\ msgs' = msgs + 1 /\ nextId' = nextId + 1
-    /\ UNCHANGED <<managed, connected, due, sess, cancelled, sessCancelled, removing, removed>>
+RecvMsg(i) ==
+    /\ pc[i] = "recv" /\ msgs[i] < MaxMsgs /\ ~sessCancelled[i] /\ ~cancelled[i]
+    /\ IF ~connected[i]
+       THEN CB(i, "connect", 0) /\ connected' = [connected EXCEPT ![i] = TRUE] /\ pc' = [pc EXCEPT ![i] = "first"] /\ UNCHANGED <<msgs, nextId>>
+       ELSE /\ \E k \in {"update", "sync"} : CB(i, k, nextId)
+            /\ msgs' = [msgs EXCEPT ![i] = @ + 1] /\ nextId' = nextId + 1 /\ UNCHANGED <<connected, pc>>
+    /\ UNCHANGED <<due, sess, cancelled, sessCancelled>> /\ UNCHANGED Ctl
+FirstMsg(i) ==
+    /\ pc[i] = "first"
+    /\ \E k \in {"update", "sync"} : CB(i, k, nextId)
+    /\ pc' = [pc EXCEPT ![i] = "recv"] /\ msgs' = [msgs EXCEPT ![i] = @ + 1] /\ nextId' = nextId + 1
+    /\ UNCHANGED <<connected, due, sess, cancelled, sessCancelled>> /\ UNCHANGED Ctl
 
 (* Recv returns an error: stream error, EOF, or a cancelled context         *)
-RecvErr ==
-    /\ pc = "recv"
-    /\ IF Mutant = "no_reset_on_eof" /\ ~sessCancelled /\ ~cancelled
-       THEN Fail(<<"connecterr", "monitorerr">>)
-       ELSE Fail(<<"reset", "connecterr", "monitorerr">>)
-    /\ UNCHANGED <<managed, connected, sess, msgs, nextId, cancelled, sessCancelled, removing, removed>> /\ NoCB
+RecvErr(i) ==
+    /\ pc[i] = "recv"
+    /\ IF Mutant = "no_reset_on_eof" /\ ~sessCancelled[i] /\ ~cancelled[i]
+       THEN Fail(i, <<"connecterr", "monitorerr">>)
+       ELSE Fail(i, <<"reset", "connecterr", "monitorerr">>)
+    /\ UNCHANGED <<connected, sess, msgs, nextId, cancelled, sessCancelled>> /\ UNCHANGED Ctl /\ NoCB
 
 (* the callbacks that end a session, one at a time                          *)
-EndCallback ==
-    /\ pc = "ended" /\ due # <<>>
-    /\ CB(due[1], 0)
-    /\ due' = [i \in 1..(Len(due) - 1) |-> due[i + 1]]
-    /\ UNCHANGED <<managed, pc, connected, sess, msgs, nextId, cancelled, sessCancelled, removing, removed>>
-SessionOver ==
-    /\ pc = "ended" /\ due = <<>> /\ pc' = "backoff"
-    /\ UNCHANGED <<managed, connected, due, sess, msgs, nextId, cancelled, sessCancelled, removing, removed>> /\ NoCB
+EndCallback(i) ==
+    /\ pc[i] = "ended" /\ due[i] # <<>>
+    /\ CB(i, due[i][1], 0)
+    /\ due' = [due EXCEPT ![i] = [k \in 1..(Len(due[i]) - 1) |-> due[i][k + 1]]]
+    /\ UNCHANGED <<pc, connected, sess, msgs, nextId, cancelled, sessCancelled>> /\ UNCHANGED Ctl
+SessionOver(i) ==
+    /\ pc[i] = "ended" /\ due[i] = <<>> /\ pc' = [pc EXCEPT ![i] = "backoff"]
+    /\ UNCHANGED <<connected, due, sess, msgs, nextId, cancelled, sessCancelled>> /\ UNCHANGED Ctl /\ NoCB
 
-(* Reconnect (API call or receive timeout): cancels the session context     *)
+(* Reconnect (API call or receive timeout): cancels the session context of the managed incarnation *)
 Reconnect ==
-    /\ managed /\ ~sessCancelled /\ sessCancelled' = TRUE
-    /\ UNCHANGED <<managed, pc, connected, due, sess, msgs, nextId, cancelled, removing, removed>> /\ NoCB
+    /\ table # 0 /\ ~sessCancelled[table] /\ sessCancelled' = [sessCancelled EXCEPT ![table] = TRUE]
+    /\ UNCHANGED <<pc, connected, due, sess, msgs, nextId, cancelled>> /\ UNCHANGED Ctl /\ NoCB
 
 (* Remove: cancel, wait for the monitor goroutine, forget the target        *)
 RemoveStart ==
-    /\ managed /\ ~removing /\ removing' = TRUE /\ cancelled' = TRUE
-    /\ UNCHANGED <<managed, pc, connected, due, sess, msgs, nextId, sessCancelled, removed>> /\ NoCB
+    /\ table # 0 /\ removing = 0
+    /\ removing' = table /\ cancelled' = [cancelled EXCEPT ![table] = TRUE]
+    /\ table' = IF Mutant = "remove_unlocks_early" THEN 0 ELSE table
+    /\ UNCHANGED <<ninc, pc, connected, due, sess, msgs, nextId, sessCancelled, removedSet>> /\ NoCB
 RemoveReturn ==
-    /\ removing /\ ~removed
-    /\ (Mutant = "remove_no_wait") \/ pc = "finished"
-    /\ removed' = TRUE /\ managed' = FALSE
-    /\ UNCHANGED <<pc, connected, due, sess, msgs, nextId, cancelled, sessCancelled, removing>> /\ NoCB
+    /\ removing # 0
+    /\ (Mutant = "remove_no_wait") \/ pc[removing] = "finished"
+    /\ removedSet' = removedSet \cup {removing}
+    /\ table' = IF table = removing THEN 0 ELSE table
+    /\ removing' = 0
+    /\ UNCHANGED <<ninc, pc, connected, due, sess, msgs, nextId, cancelled, sessCancelled>> /\ NoCB
 
-Next == Add \/ BackoffElapsed \/ MonitorExit \/ DialFail \/ DialOk \/ OpenFail \/ OpenOk \/ RecvMsg \/ FirstMsg
-        \/ RecvErr \/ EndCallback \/ SessionOver \/ Reconnect \/ RemoveStart \/ RemoveReturn
+Next == Add \/ Reconnect \/ RemoveStart \/ RemoveReturn
+        \/ \E i \in Inc : BackoffElapsed(i) \/ MonitorExit(i) \/ DialFail(i) \/ DialOk(i) \/ OpenFail(i) \/ OpenOk(i)
+                          \/ RecvMsg(i) \/ FirstMsg(i) \/ RecvErr(i) \/ EndCallback(i) \/ SessionOver(i)
 Spec == Init /\ [][Next]_vars /\ WF_vars(Next)
 
 ---------------------------------------------------------------------------
 Discipline == disc.q # "bad"
 SilenceAfterRemove == ~cbAfterRemove
+(* at most one incarnation of the name is running its sessions              *)
+OneLife == \A i, j \in Inc : (i # j /\ pc[i] \notin {"none", "finished"} /\ pc[j] \notin {"none", "finished"}) => FALSE
 (* Remove terminates: once started, it returns (no deadlock between Remove   *)
 (* and the exiting monitor)                                                  *)
-RemoveTerminates == removing ~> removed
+RemoveTerminates == (removing # 0) ~> (removing = 0)
 (* a managed target whose session failed gets a new attempt                 *)
-Retried == [](pc = "ended" /\ ~cancelled /\ sess < MaxSessions => <>(pc = "dial" \/ cancelled))
+Retried == \A i \in Inc : [](pc[i] = "ended" /\ ~cancelled[i] /\ sess[i] < MaxSessions => <>(pc[i] = "dial" \/ cancelled[i]))
 =============================================================================
